@@ -1,4 +1,4 @@
-import DclabModel.Model.Basin
+import DclabModel.Model.BasinDefs
 import DclabModel.DriveUtil
 /-! Line-protocol driver for the basin data model (C07).  Lists are comma separated, `-` = empty.
 
@@ -10,11 +10,16 @@ import DclabModel.DriveUtil
     export <new> <ref> <feats> <c2r|x> <mask|x>   export.hdf5(basins=True) of a view of <ref>
     exportold …                                   the same with the rule before the F08 fix
          → `ok <map|same>;<map|same>…` (maps of the written definitions, upstream first) | `err`
+    defs <id>                                     bookkeeping of the written file (`exportStore`)
+         → `ok <k>=<map>;same;…` (one entry per definition record, in writing order) | `exhausted`
+    copy <new> <src> <feats>                      rtdc_copy(features=<feats>, include_basins=True)
+         → `ok <n>` (number of definitions written)
     get <id> <feat>                               → `rows <rows>` | `none`
     proxy <o> ; <map> ; int <i> | arr <ints> | mask <bits> | range <s> <l> <st> | all
          → `int=<v|none|x> cache=<rows|none> nd=<rows|none>`
-    alloc <k>:<map>|… ; A <map> ; N <k> <map> ; S …
-         → `<name|same|err> …  maps=<k>:<map>|…`
+    alloc <k>:<map>|… ; A <map> ; N <k> <map> ; S ; P <k>:<chunk>|… …
+         → `<name|same|err|app> …  maps=<k>:<map>|… nrec=<n>`   (P = store_feature("basinmapK", chunk)
+           appends; a request may end with `@<tag>` = text of the definition; nrec = records written)
     prio <order> i=<rows|x> t=… a=… ib=… fb=… rb=… c=…    → `rows …` | `none`
 -/
 open DclabModel.Basin DclabModel.DriveUtil
@@ -69,12 +74,24 @@ def parseReq : List String → Option MapReq
   | ["N", k, m] => do let k ← k.toNat?; let m ← parseList m; pure (.named k m)
   | _ => none
 
+/-- a request may end with `@<tag>`: the textual content of the definition (name, locations) -/
+def parseOp : List String → Option WOp
+  | ["P", ch] => (parseMaps ch).map .append
+  | ws =>
+    match ws.getLast? with
+    | some w =>
+      if w.startsWith "@" then
+        do let t ← (w.drop 1).toNat?; let r ← parseReq ws.dropLast; pure (.store t r)
+      else (parseReq ws).map (.store 0)
+    | none => none
+
 /-- run the requests one by one (an error does not stop the following ones, as in a script that
 catches the ValueError) -/
-def runAlloc (s : SFile) : List MapReq → List String × SFile
+def runAlloc (s : SFile) : List WOp → List String × SFile
   | [] => ([], s)
-  | r :: rest =>
-    match storeBasin s 0 r with
+  | .append ch :: rest => let (o, s') := runAlloc (s.append ch) rest; ("app" :: o, s')
+  | .store t r :: rest =>
+    match storeBasin s t r with
     | none => let (o, s') := runAlloc s rest; ("err" :: o, s')
     | some s1 =>
       let name := match s1.defs.getLast? with
@@ -121,6 +138,29 @@ def handle (d : D) (line : String) : D × String :=
       | some d' => (d', "ok")
       | none => (d, "err")
     | _, _, _, _ => (d, "bad-op")
+  | ["defs", id] =>
+    match id.toNat? with
+    | none => (d, "bad-op")
+    | some id =>
+      match lk id d.files with
+      | none => (d, "err")
+      | some f =>
+        match exportStore f with
+        | none => (d, "exhausted")
+        | some s =>
+          (d, "ok " ++ joinWith ";" (s.defs.map fun df =>
+            match df.mapping with
+            | none => "same"
+            | some k => s!"{k}=" ++ showList ((lk k s.maps).getD [])))
+  | ["copy", new, src, feats] =>
+    match new.toNat?, src.toNat?, parseList feats with
+    | some new, some src, some feats =>
+      match lk src d.files with
+      | none => (d, "err")
+      | some f =>
+        let out := copyFile f (fun x => feats.contains x)
+        ({ files := d.files ++ [(new, out)] }, s!"ok {out.basins.length}")
+    | _, _, _ => (d, "bad-op")
   | ["get", id, f] =>
     match id.toNat?, f.toNat? with
     | some id, some f => (d, showRows (viaBasin d.w fuel id f))
@@ -149,10 +189,11 @@ def handle (d : D) (line : String) : D × String :=
         (d, s!"int={iv} cache={sh (idx.bind p.viaCache)} nd={sh (idx.bind p.viaNd)}")
     | _, _ => (d, "bad-op")
   | "alloc" :: maps :: ";" :: rest =>
-    match parseMaps maps, (splitOnSemi rest).mapM parseReq with
+    match parseMaps maps, (splitOnSemi rest).mapM parseOp with
     | some maps, some reqs =>
-      let (names, s) := runAlloc ⟨maps, []⟩ reqs
-      (d, joinWith " " names ++ " maps=" ++ showMaps s.maps)
+      let (names, _) := runAlloc ⟨maps, []⟩ reqs
+      let fin := runOps ⟨maps, []⟩ reqs
+      (d, joinWith " " names ++ " maps=" ++ showMaps fin.maps ++ s!" nrec={fin.records.length}")
     | _, _ => (d, "bad-op")
   | "prio" :: order :: rest =>
     match rest.mapM kv with
